@@ -363,6 +363,9 @@ impl<'a> Lexer<'a> {
                 return Ok(Token::StringTok);
             }
         }
+        // Consume what is left so that the error span ends at the end of the input rather
+        // than one byte before it, which may be in the middle of a multi-byte character.
+        while self.bytes.next().is_some() {}
         Err("Unterminated multiline string. Add \"# after the end of your string.".to_string())
     }
 
@@ -377,6 +380,8 @@ impl<'a> Lexer<'a> {
                 return Ok(Token::BlockComment);
             }
         }
+        // See read_until_multiline_string_end.
+        while self.bytes.next().is_some() {}
         Err("Unterminated multiline comment. Add |# after the end of your comment.".to_string())
     }
 
